@@ -264,7 +264,7 @@ func runAxioms(rc *runCtx) {
 func init() {
 	register(&PropSpec{ID: "C02", Level: "proof",
 		Outside: []string{
-			"fact family: programs are drawn from a fixed statement pool (assignments, +=/-=, if/else, while with invariants and in-body probes, pure and impure calls, field writes; up to 2 statements before the probe in quick, 3 in thorough) over args.x, args.y, this.f and two locals; loops are unrolled 7 times for the strongest post-condition (executions with more iterations are outside the bound; the pool's loops end within 6); facts about slices, arrays, io_readers and coroutine suspension are outside the family",
+			"fact family: programs are drawn from a fixed statement pool (assignments, +=/-=, if/else, while with invariants and in-body probes, pure and impure calls, field writes, slice assignments, array indexing; up to 2 statements before the probe in quick, 3 in thorough) over args.x, args.y, this.f and two locals; loops are unrolled 7 times for the strongest post-condition (executions with more iterations are outside the bound; the pool's loops end within 6); facts about array elements (k == a[i] is skipped as unparsed), io_readers and coroutine suspension are outside the family",
 			"premises the checker discharges by other means than listed facts (e.g. constant folding) are taken as the checker states them in its 'cannot prove' message",
 		},
 		Assume: []string{
